@@ -275,7 +275,8 @@ def rule_evalop(fx, rep, cone):
                               f" in `{nm}` line {t.get('line')}: checked builds panic on overflow, optimised builds wrap the score",
                               {"fn": nm, "file": b.file, "line": t.get("line")})
     rep.analysed["C04-EVALOP_classes"] = dict(counts)
-    rep.rule("C04-EVALOP", n, 28, ok, f"call sites of unchecked score arithmetic; classes {dict(counts)}")
+    # 28 sites on the pinned tree; the floor only guards against a vacuous pass and leaves room for merged sites (folds, helpers)
+    rep.rule("C04-EVALOP", n, 20, ok, f"call sites of unchecked score arithmetic; classes {dict(counts)}")
 
 
 def rule_ret(fx, rep):
